@@ -549,15 +549,62 @@ def datasets_strategy():
     return st.lists(one, min_size=1, max_size=3)
 
 
+def _op_strategy(dts, weights=(9, 1, 1, 1)):
+    """One history operation; the kind is one weighted integer draw (one_of would merge identical branches)."""
+    wu, wp, wr, ws = weights
+    total = wu + wp + wr + ws
+
+    def mk(t):
+        k, ti, dt = t
+        if k < wu:
+            return ["u", ti, dt]
+        if k < wu + wp:
+            return ["p"]
+        if k < wu + wp + wr:
+            return ["r"]
+        return ["restart", dt]
+
+    return st.tuples(st.integers(0, total - 1), st.integers(-1, len(TYPES) - 1), st.sampled_from(dts)).map(mk)
+
+
 def history_strategy(max_len):
-    upd = st.tuples(st.just("u"), st.integers(-1, len(TYPES) - 1), st.sampled_from(DTS)).map(list)
-    restart = st.sampled_from(DTS).map(lambda dt: ["restart", dt])
-    op = st.one_of(upd, upd, upd, upd, upd, upd, upd, upd, upd, st.just(["p"]), st.just(["r"]), restart)
-    return st.lists(op, min_size=0, max_size=max_len)
+    op = _op_strategy(DTS[2:] + DTS)
+    # lengths are drawn explicitly (Hypothesis would make a quarter of plain lists empty): zero-length and
+    # single-flush runs stay in, but most histories are long enough for several writer cycles
+    # (Hypothesis over-samples the first element of sampled_from, so the long end comes first)
+    lengths = st.sampled_from(tuple(range(max_len, -1, -1)) + tuple(range(max_len // 2, max_len + 1)))
+    return lengths.flatmap(lambda n: st.lists(op, min_size=n, max_size=n))
+
+
+def tape_strategy(max_tape):
+    # fixed length (the trace keeps only the choices actually taken); per case dense, sparse or no preemption
+    def mk(t):
+        mode, xs = t
+        if mode == 0:
+            return []
+        thr = 3 if mode <= 3 else 1
+        return [1 if x < thr else 0 for x in xs]
+
+    return st.tuples(st.integers(0, 5), st.lists(st.integers(0, 4), min_size=max_tape, max_size=max_tape)).map(mk)
 
 
 def case_strategy(max_len, max_tape):
-    return st.tuples(datasets_strategy(), history_strategy(max_len), st.lists(st.integers(0, 1), max_size=max_tape))
+    return st.tuples(datasets_strategy(), history_strategy(max_len), tape_strategy(max_tape))
+
+
+def small_case_strategy():
+    """Small histories whose whole schedule tree is enumerated: two updates that cross a flush (or subdivision)
+    deadline, with up to 2 + 1 other operations between and after them."""
+    fupd = st.tuples(st.just("u"), st.integers(0, len(TYPES) - 1), st.sampled_from(DTS[2:])).map(list)
+    op = _op_strategy((0, 1), (5, 1, 1, 1))
+    one = st.fixed_dictionaries({
+        "fmt": st.sampled_from(FORMATTERS),
+        "types": st.one_of(st.just("ALL"), st.just([1, 2])),
+        "subdiv": st.sampled_from((0, SUBDIV)),
+    })
+    hist = st.tuples(fupd, st.lists(op, max_size=2), fupd, st.lists(op, max_size=1)).map(
+        lambda t: [t[0]] + t[1] + [t[2]] + t[3])
+    return st.tuples(st.lists(one, min_size=1, max_size=2), hist)
 
 
 def _account(res: Result, datasets, history, info: CaseInfo, tag=""):
@@ -601,15 +648,18 @@ def _account(res: Result, datasets, history, info: CaseInfo, tag=""):
 # fixed tiny histories whose schedule trees are enumerated completely in both tiers
 _ALL3 = [{"fmt": "raw", "types": "ALL", "subdiv": 0}, {"fmt": "json", "types": "ALL", "subdiv": 0},
          {"fmt": "quicklogger", "types": "ALL", "subdiv": 0}]
+_RAW = [{"fmt": "raw", "types": "ALL", "subdiv": 0}]
 FIXED_DFS = [
     (_ALL3, [["u", 1, 16], ["u", 2, 16]]),
-    (_ALL3, [["u", 1, 16], ["u", 2, 0], ["u", 3, 16]]),
+    (_RAW, [["u", 1, 16], ["u", 2, 0], ["u", 3, 16]]),
     ([{"fmt": "quicklogger", "types": "ALL", "subdiv": 30}], [["u", 1, 31], ["u", 2, 31], ["u", 3, 1]]),
     ([{"fmt": "raw", "types": [1, 2], "subdiv": 30}, {"fmt": "json", "types": "ALL", "subdiv": 0}],
-     [["u", 1, 16], ["p"], ["u", 2, 1], ["r"], ["u", 2, 16], ["u", 1, 1]]),
-    ([{"fmt": "json", "types": "ALL", "subdiv": 0}], [["u", 1, 16], ["u", -1, 16], ["u", 2, 16], ["u", 3, 16]]),
-    ([{"fmt": "raw", "types": "ALL", "subdiv": 0}], [["u", 0, 16]]),
-    ([{"fmt": "raw", "types": "ALL", "subdiv": 0}], [["u", 1, 16], ["restart", 0], ["u", 2, 16], ["u", 3, 16]]),
+     [["u", 1, 16], ["p"], ["u", 2, 1], ["r"], ["u", 2, 16]]),
+    ([{"fmt": "json", "types": "ALL", "subdiv": 0}], [["u", 1, 16], ["u", -1, 16], ["u", 2, 1]]),
+    (_RAW, [["u", 0, 16]]),
+    (_RAW, []),
+    (_RAW, [["u", 1, 16], ["restart", 0], ["u", 2, 16]]),
+    ([{"fmt": "quicklogger", "types": "ALL", "subdiv": 0}], [["u", 1, 16], ["u", 2, 16], ["restart", 0], ["u", 3, 1]]),
 ]
 
 
@@ -656,7 +706,7 @@ def small_histories(max_updates=4):
     return outs
 
 
-def shard(seed: int, n_examples: int, max_len: int, max_tape: int, dfs_slice) -> Result:
+def shard(seed: int, n_examples: int, max_len: int, max_tape: int, dfs_slice, n_dfs_random: int, dfs_limit: int) -> Result:
     res = Result()
 
     def body(v):
@@ -666,38 +716,46 @@ def shard(seed: int, n_examples: int, max_len: int, max_tape: int, dfs_slice) ->
             res.sample(_trace(datasets, history, info.tape))
 
     hyp_run(body, case_strategy(max_len, max_tape), seed, n_examples, res, collect=True)
+
+    # exhaustive schedule enumeration: the fixed slice, then Hypothesis-drawn small histories
     for datasets, history, limit in dfs_slice:
         dfs_history(res, datasets, history, limit)
+
+    def body_dfs(v):
+        datasets, history = v
+        res.evaluations -= 1  # hyp_run counts the history; dfs_history counts its schedules
+        dfs_history(res, datasets, history, dfs_limit)
+
+    if n_dfs_random:
+        hyp_run(body_dfs, small_case_strategy(), seed ^ 0x5EED, n_dfs_random, res, collect=True)
     return res
 
 
 def run(ctx: RunContext) -> int:
     t0 = _real_time.time()
-    n = ctx.scale(700, 12000)
+    n = ctx.scale(500, 12000)
     max_len = 14 if ctx.quick else 24
-    max_tape = 40 if ctx.quick else 80
-    work = [(d, h, 4096) for d, h in FIXED_DFS]
+    max_tape = 48 if ctx.quick else 96
+    limit = 1500 if ctx.quick else 4096
+    work = [(d, h, limit) for d, h in FIXED_DFS]
     if not ctx.quick:
         for fmt in FORMATTERS:
             for sub in (0, SUBDIV):
                 for h in small_histories(4):
-                    work.append(([{"fmt": fmt, "types": "ALL", "subdiv": sub}], h, 4096))
+                    work.append(([{"fmt": fmt, "types": "ALL", "subdiv": sub}], h, limit))
     slices = [work[i::16] for i in range(16)]
-    res = run_shards(shard, [(derive_seed(ctx.seed, i), n, max_len, max_tape, slices[i]) for i in range(16)])
+    n_dfs = ctx.scale(3, 40)
+    res = run_shards(shard, [(derive_seed(ctx.seed, i), n, max_len, max_tape, slices[i], n_dfs, limit)
+                             for i in range(16)])
     if res.counters.get("dfs-histories-truncated"):
-        res.notes.append("some schedule trees were cut at 4096 schedules: the exhaustive sub-domain is the set of "
+        res.notes.append(f"some schedule trees were cut at {limit} schedules: the exhaustive sub-domain is the set of "
                          "histories counted in dfs-histories-complete")
-    res.notes.append("exhaustive sub-domain: all schedules of the histories counted in dfs-histories-complete")
+    res.notes.append("exhaustive sub-domain: all schedules (at synchronisation-operation granularity) of the "
+                     "histories counted in dfs-histories-complete")
     return conclude(ctx, res, RULE, ASSUME, t0)
 
 
-def replay(ctx: RunContext, body: dict) -> int:
-    tr = body["trace"]
-    history = [h for h in tr["history"] if h[0] != "stop"]
-    try:
-        run_case(tr["datasets"], history, tr["tape"])
-    except Violation as v:
-        print(f"VIOLATION property={PROP} replay={ctx.replay}\n  key={v.key}\n  what={v.what}")
-        return 1
-    print("replay: property held")
-    return 0
+def replay_trace(trace: dict) -> None:
+    """Re-execute one concrete case without Hypothesis; raises Violation if C17 still fails on it."""
+    history = [h for h in trace["history"] if h[0] != "stop"]
+    run_case(trace["datasets"], history, trace["tape"])
